@@ -9,12 +9,12 @@ From Coq Require Import ZArith List Bool.
 From BV Require Import Lib.Cases Model.LaxSem Model.Restart Model.Pool
      Proofs.PoolJobs Proofs.PoolInv Proofs.PoolCor.
 From BV Require Gen.G_pool_shape.
+From BV Require Import Model.PoolSys Proofs.PoolSysProofs.
 Import ListNotations.
 Open Scope Z_scope.
 
 Theorem C07_closed_rejects_apply : forall s so ha lo slot,
-    pstate s <> 0 ->
-    (do_apply s so ha lo slot = (s, RRefused) \/ do_apply s so ha lo slot = (s, RBlocked)).
+    pstate s <> 0 -> do_apply s so ha lo slot = (s, RRefused).
 Proof. exact closed_rejects_apply. Qed.
 Print Assumptions C07_closed_rejects_apply.
 
@@ -71,6 +71,22 @@ Definition c07_cfg := mkcfg 2 None None None None 1 true false.
 Definition c07_tr : list event :=
   [EApply None None None None; EApply None None None None; EAck 0 None 0; EClose;
    EApply None None None None; EMap 3 1; EReady 0 None true 5; EAck 1 None 1; EReady 1 None false 6].
+(* the drain half, for the closed system in which nothing goes wrong (Model/PoolSys.v, see
+   Props/C01.v): the client may call close() at ANY point of ANY schedule; every maximal
+   schedule then ends, within 6 n + 1 steps, in a closed pool in which every job accepted before
+   close() is resolved with its own result (callback once), calls made after it created nothing,
+   and nothing is left in the task queue, the pipes or a worker.  (Worker exit on the sentinel,
+   reaping and thread shutdown during join() are runtime behaviour: real-pool scenarios only.) *)
+Theorem C07_every_job_before_close_resolves : forall c n sched y,
+    1 <= c_n c -> srun (sinit c n) sched = Some y -> (forall a, sys_step y a = None) ->
+    ((forall j, 0 <= j < Z.of_nat (length (jobs (par y))) ->
+        exists x, get_job (par y) j = Some x /\ ready x = true
+                  /\ value x = Some (PValue (tag_of j)) /\ cb_succ x = 1 /\ cb_err x = 0)
+     /\ todo y = 0%nat /\ taskq y = [] /\ inq y = [] /\ outq y = [] /\ somes (wk y) = [])
+    /\ pstate (par y) = 1 /\ (length (jobs (par y)) <= n)%nat /\ (length sched <= 6 * n + 1)%nat.
+Proof. exact every_maximal_schedule_completes. Qed.
+Print Assumptions C07_every_job_before_close_resolves.
+
 Example C07_witness :
   let s := run c07_cfg c07_tr in
   (pstate s, length (jobs s), map (fun x => (ready x, value x)) (jobs s), map counter (procs s))
